@@ -8,6 +8,8 @@ mod rexec;
 mod rgen;
 mod rhist;
 mod rng;
+mod tgen;
+mod thist;
 mod tree;
 
 use rhist::{RunResult, Violation};
@@ -38,6 +40,7 @@ fn gen_history(suite: &str, r: &mut Rng) -> Vec<Tree> {
         "n-codec" => ngen::gen_codec(r),
         "n-replay" => ngen::gen_replay(r),
         "n-world" => ngen::gen_world(r),
+        "t-udp" => tgen::gen_transport(r),
         _ => panic!("unknown suite {}", suite),
     }
 }
@@ -46,6 +49,7 @@ fn run_history(suite: &str, ops: &[Tree]) -> RunResult {
     match suite {
         "r-codec" | "r-pair" | "r-hostile" | "r-server" => rhist::run_history(ops),
         "n-codec" | "n-replay" | "n-world" => nhist::run_history(ops),
+        "t-udp" => thist::run_history(ops),
         _ => panic!("unknown suite {}", suite),
     }
 }
